@@ -93,6 +93,32 @@ pub fn elem_kind(elem: &str) -> &'static str {
     }
 }
 
+/// channels a task has taken items from
+pub fn chans_received_by(r: &ExecResult, task: u32) -> Vec<u32> {
+    let mut v: Vec<u32> = vec![];
+    for rec in &r.log {
+        if rec.task == task {
+            if let Ev::ChanRecv { ch, .. } = rec.ev {
+                if !v.contains(&ch) {
+                    v.push(ch);
+                }
+            }
+        }
+    }
+    v
+}
+
+/// The dispatch queue(s), identified by behaviour (what the reducer context reads from) rather
+/// than by payload type names, which are the implementation's business; the type name is only
+/// the fall-back when nothing was reduced.
+pub fn dispatch_chans(r: &ExecResult) -> Vec<u32> {
+    let by_behaviour: Vec<u32> = cbs_of(r, "reduce").map(|c| c.task).next().map(|t| chans_received_by(r, t)).unwrap_or_default();
+    if !by_behaviour.is_empty() {
+        return by_behaviour;
+    }
+    r.chans.iter().enumerate().filter(|(_, c)| elem_kind(c.elem) == "dispatch").map(|(i, _)| i as u32).collect()
+}
+
 pub fn role_s(r: Role) -> &'static str {
     match r {
         Role::Main => "main",
@@ -370,7 +396,11 @@ pub fn classify_hang(r: &ExecResult) -> Option<Finding> {
     for s in &roots {
         match &s.wait {
             Wait::Send(ch) if elem_kind(s.elem) == "iter" && r.chans[*ch as usize].receivers <= 1 => kf4 = true,
-            Wait::Recv(_) if elem_kind(s.elem) == "iter" && s.role == Role::Client => {
+            Wait::Recv(_)
+                if s.role == Role::Client
+                    && (elem_kind(s.elem) == "iter"
+                        || r.log.iter().rev().find(|rec| rec.task == s.task && matches!(rec.ev, Ev::Call { .. })).map(|rec| matches!(rec.ev, Ev::Call { op: "iter_next", .. })).unwrap_or(false)) =>
+            {
                 // the iterator this client is reading was created after stop()/close()?
                 let created = r
                     .log
